@@ -208,11 +208,18 @@ pub(super) fn prepare_call_parameters(
     let mut fn_args: proc_macro2::TokenStream = proc_macro2::TokenStream::new();
     let mut fn_arg_prep: proc_macro2::TokenStream = proc_macro2::TokenStream::new();
 
+    // Parameters of one edge become arguments of one function: `type` is escaped to `type_`,
+    // so it cannot be told apart from a parameter that is itself called `type_`.
+    let mut uniq: std::collections::HashMap<String, &str> = Default::default();
+
     for (parameter_name, parameter_type) in parameters {
-        let ident = syn::Ident::new(
-            &escaped_parameter_binding_name(parameter_name),
-            proc_macro2::Span::call_site(),
-        );
+        let binding_name = escaped_parameter_binding_name(parameter_name);
+        if let Some(v) = uniq.insert(binding_name.clone(), parameter_name) {
+            panic!(
+                "cannot generate adapter for a schema containing both '{v}' and '{parameter_name}' as parameters of the same edge, consider renaming one of them",
+            );
+        }
+        let ident = syn::Ident::new(&binding_name, proc_macro2::Span::call_site());
         let ty = trustfall_type_to_rust_type(parameter_type);
         fn_params.extend(quote! {
             #ident: #ty,
